@@ -57,7 +57,9 @@ GEN_NAMES = {-8: 'radian', -1: 'meter', -2: 'kilogram', -3: 'second', -4: 'amper
 
 EXPONENTS = ['1', '-1', '2', '-2', '3', '-3', '0.5', '-0.5', '1.5', '2.0', '1.0']
 MULTS = ['2', '3', '5', '7', '1000', '0.001', '1e-6', '1e3', '2.5', '60', '3600', '0.01', '100', '0.5', '1.5', '12',
-         '96', '1.1', '9.7e1', '0.0255', '6.25e-2', '1.21', '89', '0.97', '1']
+         '96', '1.1', '9.7e1', '0.0255', '6.25e-2', '1.21', '89', '0.97', '1',
+         # very small multipliers and multipliers with many significant digits (a fixed number of decimals loses them)
+         '1e-10', '2.5e-9', '0.00000004', '0.0009765625', '9.5367431640625e-07', '1.0009765625']
 WORD_NAMES = ['ua', 'ub', 'uc', 'ud', 'ue', 'uf', 'ug', 'uh', 'mV', 'ms', '_u', '__v2', '_1', 'e', 'pi', 'E', 'metre_x',
               'kilometre', 'millisecond', 'store{SID}_x', 'store{SID}_u', 'store12_volt', 'x1', 'A_per_F',
               'u_2', 'voltage', 'my_volt', 'second2', 'gram_per_litre', 'radians', 'INF', 'nan', 'j', 'k9',
